@@ -58,6 +58,17 @@ RICH = {
         "/w/main.td": 'class A<int n, string s = "d">;\ndef d1 : A<"größ" = 1, n = 2>;\ndef d2 : A<"n" = 1, "n" = 2>;\ndef d3 : A<"é" = 1>;\n'
                       'def d4 : A<n = 1, "sé" = "x">;\ndef d5 : A<zz = 1, n = 1>;\ndef d6 : A<1, "日本" = "y">;\ndefvar v = A<"ß" = 1>;\n',
     },
+    # a field inherited from a LONG header is overridden / re-declared in a short file; a let block around an include
+    "override-far": {
+        "/w/main.td": 'include "far.td"\ndef e : Far { let fx = 3; int b = fx; }\nclass R : Far { int fx = 7; int u = fx; }\nlet fy = 16 in { include "inner.td" }\n',
+        "/w/far.td": '// ' + 'a long header, longer than the file that includes it. ' * 12 + '\nclass Far { int fx = 1; int fy = fx; string こ = "x"; }\n',
+        "/w/inner.td": 'def in1 : Far;\ndef in2 : Far { int q = fy; }\n',
+    },
+    # conditionals still open at the end of a file whose last character is not ASCII (no final line break)
+    "open-conditional": {
+        "/w/main.td": 'include "h.td"\n#ifdef X\nclass A;\n#else\nclass B;\n// 終',
+        "/w/h.td": '#ifndef G\nclass H;\n// €',
+    },
     "stress": {
         "/w/main.td": 'class A : A { let x = 1; }\nclass B;\nclass B<int n> : B { int n2 = n; }\nclass C<int C> { int C2 = C; }\ndef C : C<1>;\ndef d { int d = 1; int e = d; }\nclass F { int f = f; }\ndef : F;\ndef : F { let f = 2; }\ndefm : Nope<1>;\ndefm named : Nope;\nmulticlass M2 : M2 { def x; }\nmulticlass M3<int a> : M2 { defm y : M3<a>; }\nlet nosuch = 1 in def q;\nclass G<int g = g> ;\nclass H : G<1, 2, 3>, G<"s">, Missing<1>;\ndef h { int a = !add(1); int b = !add(1, "s"); int c = nope; int e = h.a.b; list<int> l = [1, "a"]; int s = l[0][1]; }\nforeach i = i in def r#i;\nforeach k = [] in def;\ndefset list<Missing> ds = { def in_ds; }\ndefset int bad = { }\ndefvar v = v;\ndefvar v = 1;\nassert v, v;\n',
     },
